@@ -62,6 +62,8 @@ Mach(u, v, x) ==
   THEN (IF MName(u.name, v.name) \in MTempMethods /\ MName(u.name, v.name) \in
               {"K_Cel", "K_degF", "degR_degF", "degR_Cel", "Cel_K", "Cel_degF", "Cel_degR", "degF_K", "degF_Cel", "degF_degR"}
         THEN [ok |-> TRUE, q |-> QDiv(MMethod(u.name, v.name, QMul(x, MMag(u))), MMag(v))]
+        ELSE IF MName(u.name, v.name) \in MTempMethods /\ u.name = v.name
+        THEN [ok |-> TRUE, q |-> QDiv(QMul(x, MMag(u)), MMag(v))]       \* an identity method (only in a repaired tree)
         ELSE [ok |-> FALSE, q |-> QZero])                    \* 'Conversion method is not implemented'
   ELSE [ok |-> TRUE, q |-> QDiv(QMul(x, MMag(u)), MMag(v))]   \* StandardUnitType, equal dimensions: linear
 =============================================================================
